@@ -23,6 +23,17 @@
 //	iter      iterator workloads over word patterns: bit 63 / bit 0 neighbours,
 //	          empty words in the middle and at the end, empty sets with and
 //	          without capacity, interleaved iterators, early termination.
+//	windows   2-12 operations without any observing call (not even Cap), also as the
+//	          first calls ever made on a zero value; the observer that is asked first
+//	          afterwards (Len, Contains, Iter, Range, All, a kept All sequence) varies.
+//	big       sets of 15 ... 65537 words on both sides of every power of two, members
+//	          in the last partial block of 16 words, members 4/8/16/32/64 words apart,
+//	          values above 65535 and 2^20, operands of very different capacities.
+//	reentrant enumerations whose receiving code calls back into the same object:
+//	          read-only (with a complete nested enumeration), editing (only the state
+//	          afterwards is compared, not what the enumeration reported), panicking.
+//
+// (windows, big, reentrant: engines2.go)
 package main
 
 import (
@@ -39,11 +50,14 @@ type world struct {
 	ops  int
 	bulk int
 	q    quietState
+
+	shuffle, sparse bool // handed to every subject (see subject)
 }
 
 func (w *world) new(k kind, name string) *subject {
 	s := newSubject(w.c, k, name)
 	s.q = &w.q
+	s.shuffle, s.sparse = w.shuffle, w.sparse
 	w.subs = append(w.subs, s)
 	return s
 }
@@ -438,13 +452,17 @@ func lockstepCase(c *ev.Case) {
 
 func main() {
 	r := ev.New("C16")
-	r.Rule("one case = a seeded sequence of Add/Remove/Contains/Grow/Cap/Clone/Diff/Intersect/Merge over setz.Bits, setz.Bitmap and dsz.Bits objects, each with its own Go-map model (lockstep: random sequences; pairs: one pair of subsets of the word-boundary values per case index, enumerated completely; words: operands of 0..6 words from bit patterns, every receiver/operand word count combination; iter: enumeration workloads). distinct = distinct hash of the operation sequence / operand contents; non-trivial = at least one bulk operation (iter engine: at least one member) with all of Len, Contains sweep, Iter, Range, All compared afterwards")
+	r.Rule("one case = a seeded sequence of Add/Remove/Contains/Grow/Cap/Clone/Diff/Intersect/Merge over setz.Bits, setz.Bitmap and dsz.Bits objects, each with its own Go-map model (lockstep: random sequences; pairs: one pair of subsets of the word-boundary values per case index, enumerated completely; words: operands of 0..6 words from bit patterns, every receiver/operand word count combination; iter: enumeration workloads; windows: 2-12 operations without any observing call, then all observers in a drawn order; big: sets of 15-65537 words around powers of two; reentrant: enumerations whose receiving code reads, edits or panics). distinct = distinct hash of the operation sequence / operand contents; non-trivial = at least one bulk operation (iter engine: at least one member) with all of Len, Contains sweep, Iter, Range, All compared afterwards")
 	r.Assume("the set model (Go map + sort) is the specification; values stay below ~1200 for Add/Grow (larger values only for Contains/Remove, which must not allocate); word counts are read through Cap() for coverage counters only; nothing is asserted about the value of Cap()")
+	r.Assume("what an enumeration reports after its own receiving code has edited the set is not looked at (the statement does not settle it); the element operations made from there and the state of the object afterwards are compared as usual; big engine: values up to 2^22+2^17, Contains compared at members, neighbours, word/capacity edges, powers of two and random values when a set has more than 2100 words")
 	r.Assume("Range's callback returning false stops the enumeration (the only meaning its bool result has); All obeys the iter.Seq protocol")
 	r.Cases("lockstep", r.N(50000, 1500000), ev.Opt{HangViolation: true}, lockstepCase)
 	r.Cases("pairs", pairsCount(r), ev.Opt{HangViolation: true}, pairsCase)
 	r.Cases("words", r.N(14700, 735000), ev.Opt{HangViolation: true}, wordsCase)
 	r.Cases("iter", r.N(20000, 800000), ev.Opt{HangViolation: true}, iterCase)
+	r.Cases("windows", r.N(20000, 200000), ev.Opt{HangViolation: true}, windowsCase)
+	r.Cases("big", r.N(1600, 16000), ev.Opt{HangViolation: true}, bigCase)
+	r.Cases("reentrant", r.N(20000, 200000), ev.Opt{HangViolation: true}, reentrantCase)
 
 	// observation floors (quick-tier counts are 4-10x higher at every seed tried)
 	for _, op := range opCtx {
@@ -474,6 +492,41 @@ func main() {
 		"enum_three_or_more_words": 900000, "enum_leading_empty_word": 400000, "enum_word_crossings": 2000000,
 		"interleaved_iterator_pairs": 200000, "early_stops": 160000, "early_stop_at_word_end": 30000,
 		"iter_drained_sets": 800, "pair_cases": 20000, "words_cases": 14000, "iter_cases": 19000,
+		"add_unallocatable_value_recovered": 5000,
+		// windows
+		"windows_cases": 19000, "windows_closed": 60000, "window_operations": 400000,
+		"windows_of_8_or_more_operations": 20000, "windows_opened_on_never_observed_zero_values": 7000,
+		"clones_made_inside_a_window":                  12000,
+		"first_observer_after_unobserved_ops_len":      60000,
+		"first_observer_after_unobserved_ops_contains": 60000,
+		"first_observer_after_unobserved_ops_iter":     35000,
+		"first_observer_after_unobserved_ops_range":    15000,
+		"first_observer_after_unobserved_ops_all":      5000,
+		"kept_all_sequence_run_before_any_fresh_one":   80000,
+		// big
+		"big_cases": 1500, "big_cases_mid": 80, "big_cases_large": 10, "big_bulk_operations": 2000,
+		"big_verifications_of_16_or_more_words":                              30000,
+		"big_members_in_last_partial_block_of_16_words":                      10000,
+		"big_verifications_with_members_above_65535":                         2000,
+		"enum_gap_of_16_or_more_empty_words":                                 80000,
+		"enum_members_exactly_16_words_apart":                                5000,
+		"bulk_diff_with_16_or_more_words":                                    1500,
+		"bulk_intersect_with_16_or_more_words":                               1500,
+		"bulk_merge_with_16_or_more_words":                                   1500,
+		"bulk_merge_longer_operand_of_32_or_more_words_adds_to_common_words": 200,
+		"sparse_contains_probes":                                             500000,
+		// reentrant
+		"reentrant_cases": 19000, "callback_read_only_calls": 500000, "nested_enumerations": 30000,
+		"nested_Range_inside_Range": 3000, "nested_All_inside_All": 1500, "nested_Iter_inside_Iter": 15000,
+		"enumerations_edited_by_receiving_code":       50000,
+		"enumerations_edited_by_receiving_code_All":   8000,
+		"enumerations_edited_by_receiving_code_Range": 15000,
+		"enumerations_edited_by_receiving_code_Iter":  25000,
+		"edited_enumerations_run_to_the_end":          35000,
+		"edited_enumerations_run_to_the_end_All":      6000,
+		"callback_edit_remove_current":                15000, "callback_edit_remove_delivered": 15000, "callback_edit_remove_pending": 15000,
+		"callback_edit_add_below_cursor": 15000, "callback_edit_add_above_cursor": 15000, "callback_edit_add_beyond_capacity": 15000,
+		"callback_edit_grow": 15000, "callback_panics_recovered": 10000,
 	} {
 		r.Require(k, v)
 	}
